@@ -528,7 +528,8 @@ class ErrorRateParity(UtilityParity):
             sensitive_features=sensitive_features,
             control_features=control_features,
         )
-        utilities = np.vstack([y_train, 1 - y_train]).T
+        y_float = y_train.astype(np.float64)  # small unsigned label dtypes wrap around in 1 - y and u1 - u0
+        utilities = np.vstack([y_float, 1 - y_float]).T
         base_event = pd.Series(data=_ALL, index=y_train.index)
         event = _merge_event_and_control_columns(base_event, cf_train)
         super().load_data(
